@@ -18,7 +18,7 @@ import numpy as np
 from .. import core
 
 TOL = 1e-12
-ALL_FAMILIES = ['reject', 'rejnum', 'interp1', 'interpnd', 'aesth', 'median', 'median2', 'sky']
+ALL_FAMILIES = ['reject', 'rejnum', 'interp1', 'interpnd', 'aesth', 'median', 'median2', 'sky', 'skywide']
 
 
 # ----------------------------------------------------------------------------------------------
@@ -85,12 +85,23 @@ def exc_name(ex):
 # djs_reject
 # ----------------------------------------------------------------------------------------------
 def reject_convs(c):
-    w = [Fraction(*q) for q in c['w']]
-    convs = ['invvar']
-    if all(x > 0 for x in w):
-        convs.append('sigma')
-        if len(set(w)) == 1:
+    """The calling conventions that mean the spec call: sigma mode -> sigma= array, scalar sigma when all are
+    equal (sigma = 0 included), invvar= 1/sigma^2 when every sigma is positive; weight mode -> invvar= scale^2,
+    sigma= 1/scale when every weight is positive."""
+    sc = [Fraction(*q) for q in c['scale']]
+    pos = all(x > 0 for x in sc)
+    if c['mode'] == 'sigma':
+        convs = ['sigma']
+        if len(set(sc)) == 1:
             convs.append('sigma-scalar')
+        if pos:
+            convs.append('invvar')
+    else:
+        convs = ['invvar']
+        if pos:
+            convs.append('sigma')
+            if len(set(sc)) == 1:
+                convs.append('sigma-scalar')
     return convs
 
 
@@ -100,14 +111,16 @@ def reject_call(c, conv, use_none):
     n = c['n']
     model = 3.0 * np.arange(n, dtype='d') - 2.0
     data = model + np.array([fl(d) for d in c['diff']], dtype='d')
-    w = [Fraction(*q) for q in c['w']]
+    sc = [Fraction(*q) for q in c['scale']]
+    sig = sc if c['mode'] == 'sigma' else [1 / x if x else None for x in sc]
+    wgt = sc if c['mode'] == 'weight' else [1 / x if x else None for x in sc]
     kw = {}
     if conv == 'sigma':
-        kw['sigma'] = np.array([float(1 / x) for x in w], dtype='d')
+        kw['sigma'] = np.array([float(x) for x in sig], dtype='d')
     elif conv == 'sigma-scalar':
-        kw['sigma'] = float(1 / w[0])
+        kw['sigma'] = float(sig[0])
     else:
-        kw['invvar'] = np.array([float(x * x) for x in w], dtype='d')
+        kw['invvar'] = np.array([float(x * x) for x in wgt], dtype='d')
     for name in ('lower', 'upper', 'maxdev'):
         if c[name]:
             kw[name] = num(c[name][0])
@@ -149,12 +162,7 @@ def reject_judge(c, exp, obs):
 def reject_record(c, obs, conv):
     """The trace record of a spec-shaped call (used for deferred verdicts)."""
     n = c['n']
-    w = [Fraction(*q) for q in c['w']]
-    if conv == 'invvar':
-        mode, scale = 'invvar', [[x.numerator, x.denominator] for x in w]
-    else:
-        mode, scale = 'sigma', [[(1 / x).numerator, (1 / x).denominator] for x in w]
-    return {'kind': 'reject', 'n': n, 'data': c['diff'], 'model': [[0, 1]] * n, 'mode': mode, 'scale': scale,
+    return {'kind': 'reject', 'n': n, 'data': c['diff'], 'model': [[0, 1]] * n, 'mode': c['mode'], 'scale': c['scale'],
             'lower': c['lower'], 'upper': c['upper'], 'maxdev': c['maxdev'], 'inmask': sorted(c['inmask']),
             'prev': sorted(c['prev']), 'sticky': c['sticky'], 'grow': c['grow'], 'err': obs['err'],
             'exact': True, 'out': obs['out'], 'qdone': obs['qdone']}
@@ -346,8 +354,12 @@ def sky_judge(exp, obs):
     if obs['err']:
         return 'raised ' + obs['exc']
     want = np.array(exp['val'], dtype='d')
-    if not np.array_equal(np.asarray(obs['out'], dtype='d'), want):
-        return 'result %s, specified %s' % (np.asarray(obs['out']).tolist(), exp['val'])
+    got = np.asarray(obs['out'], dtype='d')
+    if not np.array_equal(got, want):
+        where = np.argwhere(got != want)
+        r, p = (int(v) for v in where[0])
+        return 'result differs at %d pixel(s), first (row %d, pixel %d): %r, specified %r' % (
+            len(where), r + 1, p + 1, float(got[r, p]), float(want[r, p]))
     return ''
 
 
@@ -464,9 +476,11 @@ def rec_reject(rng, n_chain=3):
     sig_choices = [Fraction(1, 2), Fraction(1), Fraction(2), Fraction(4), Fraction(1, 4)]
     mode = rng.choice(['sigma', 'sigma', 'invvar', 'sigma-scalar'])
     if mode == 'sigma-scalar':
-        sig = [rng.choice(sig_choices)] * n
+        sig = [rng.choice(sig_choices + [Fraction(0)])] * n
     else:
         sig = [rng.choice(sig_choices) for _ in range(n)]
+        if mode == 'sigma' and rng.random() < 0.5:          # exactly known points: sigma = 0
+            sig = [Fraction(0) if rng.random() < 0.3 else v for v in sig]
     zero_w = [mode == 'invvar' and rng.random() < 0.1 for _ in range(n)]
     lims = {}
     for name, choices in (('lower', [None, 0, 1, Fraction(5, 2), 5]), ('upper', [None, 0, 2, Fraction(7, 2), 5]),
@@ -476,7 +490,9 @@ def rec_reject(rng, n_chain=3):
     diff = []
     for k in range(n):
         p = rng.random()
-        if p < 0.45:
+        if p < 0.15:
+            d = Fraction(0)
+        elif p < 0.45:
             d = Fraction(rng.randint(-12, 12), 4)
         elif p < 0.75:
             d = Fraction(rng.randint(-100, 100), 4)
@@ -497,7 +513,7 @@ def rec_reject(rng, n_chain=3):
         if mode == 'invvar':
             scale = [Fraction(0) if z else 1 / s for s, z in zip(sig, zero_w)]
             kw['invvar'] = np.array([float(s * s) for s in scale], dtype='d')
-            recmode = 'invvar'
+            recmode = 'weight'
         else:
             scale = sig
             kw['sigma'] = float(sig[0]) if mode == 'sigma-scalar' else np.array([float(s) for s in sig], dtype='d')
@@ -610,22 +626,36 @@ def rec_sky(ctx, rng):
     tbl = rng.choice([{'BADSKYCHI': 27, 'REDMONSTER': 28, 'O1': 26, 'O2': 29, 'O3': 0, 'O4': 23},
                       {'BADSKYCHI': 3, 'REDMONSTER': 13, 'O1': 14, 'O2': 4, 'O3': 2, 'O4': 12},
                       {'BADSKYCHI': 30, 'REDMONSTER': 0, 'O1': 1, 'O2': 29, 'O3': 16, 'O4': 15}])
-    nr, L = rng.randint(1, 3), rng.randint(1, 12)
-    ngrow = rng.choice([0, 1, 2, 2, 3, 5])
-    dens = rng.choice([0.0, 0.1, 0.3])
     names = sorted(tbl)
-    flags = []
-    for _ in range(nr):
-        row = []
-        for _ in range(L):
-            bits = set()
-            if rng.random() < dens:
-                bits.add(tbl[rng.choice(['BADSKYCHI', 'REDMONSTER'])])
-            for nm in names:
-                if nm.startswith('O') and rng.random() < 0.25:
-                    bits.add(tbl[nm])
-            row.append(sorted(bits))
-        flags.append(row)
+    wide = rng.random() < 0.35
+    if wide:      # wide windows, a few isolated flagged pixels (anywhere, row ends included)
+        ngrow = rng.randint(0, 60 if ctx.quick else 130)
+        nr, L = rng.randint(1, 2), 2 * ngrow + 3 + rng.randint(0, 12)
+        flags = []
+        for _ in range(nr):
+            row = [[] for _ in range(L)]
+            for pos in rng.sample(range(L), min(L, rng.choice([1, 1, 2]))) + rng.sample([0, L - 1], rng.choice([0, 0, 1])):
+                row[pos] = sorted({tbl[rng.choice(['BADSKYCHI', 'REDMONSTER'])]} | ({tbl['O1']} if rng.random() < 0.3 else set()))
+            for pos in rng.sample(range(L), min(L, 3)):
+                if not row[pos]:
+                    row[pos] = [tbl[rng.choice(['O1', 'O2', 'O3', 'O4'])]]
+            flags.append(row)
+    else:
+        nr, L = rng.randint(1, 3), rng.randint(1, 12)
+        ngrow = rng.choice([0, 1, 2, 2, 3, 5])
+        dens = rng.choice([0.0, 0.1, 0.3])
+        flags = []
+        for _ in range(nr):
+            row = []
+            for _ in range(L):
+                bits = set()
+                if rng.random() < dens:
+                    bits.add(tbl[rng.choice(['BADSKYCHI', 'REDMONSTER'])])
+                for nm in names:
+                    if nm.startswith('O') and rng.random() < 0.25:
+                        bits.add(tbl[nm])
+                row.append(sorted(bits))
+            flags.append(row)
     ivar = [[rng.choice([0, 1, 2, 3, 7]) for _ in range(L)] for _ in range(nr)]
     c = {'tbl': tbl, 'ngrow': ngrow, 'ivar': ivar, 'flags': flags}
     dtype = rng.choice(sky_dtypes(flags))
@@ -683,15 +713,18 @@ def run(ctx):
                 'the real functions judged by Trace_Reject')
     ctx.assumptions = [
         'djs_reject: 1-D data; maxrej/group* options and the internally estimated sigma are outside the statement',
+        'djs_reject units: beyond lower iff diff < -lower*sigma (IDL), so sigma = 0 rejects every non-zero residual of that '
+        'sign and keeps a zero residual; invvar = 0 is never beyond lower/upper',
         'grow: any mask between "neighbours of points rejected by the residual tests of this call" (IDL) and '
         '"neighbours of every rejected point" is accepted (statement does not choose)',
         'djs_maskinterp axis k counts from the fastest-varying dimension (numpy axis ndim-1-k) as IDL and filter_thru do; '
         'x values pairwise distinct along a line; float64 samples',
         'reflect median: odd width <= array length (IDL MEDIAN domain); 2-D: width 3',
-        'skymask: mask values whose set bits fit the dtype below its sign bit; two generated SPPIXMASK tables',
+        'skymask: mask values whose set bits fit the dtype below its sign bit; two generated SPPIXMASK tables; '
+        'every ngrow 0..60 (quick) / 0..130 (thorough) on rows holding the whole window with isolated flagged pixels',
         'abstraction: floats <-> rationals with 1e-12 relative tolerance on interpolated / mean values, exact elsewhere']
     rep = Reporter(ctx)
-    groups = [['rejnum', 'interp1', 'interpnd', 'aesth', 'median', 'median2', 'sky'], ['reject']]
+    groups = [['rejnum', 'interp1', 'interpnd', 'aesth', 'median', 'median2', 'sky', 'skywide'], ['reject']]
     if ctx.quick:
         groups = [ALL_FAMILIES]
     idx = 0
@@ -769,8 +802,9 @@ def run(ctx):
 
 
 def brief(c):
-    keys = ('n', 'diff', 'data', 'w', 'scale', 'lower', 'upper', 'maxdev', 'inmask', 'prev', 'sticky', 'grow', 'shape', 'axis',
-            'y', 'bad', 'x', 'const', 'flux', 'ivar', 'method', 'a', 'A', 'w', 'tbl', 'ngrow', 'flags', 'dtype', 'out', 'qdone')
+    keys = ('n', 'diff', 'data', 'mode', 'scale', 'lower', 'upper', 'maxdev', 'inmask', 'prev', 'sticky', 'grow', 'shape',
+            'axis', 'method', 'w', 'pat', 'tbl', 'ngrow', 'dtype', 'y', 'bad', 'x', 'const', 'flux', 'ivar', 'a', 'A', 'flags',
+            'out', 'qdone')
     s = ', '.join('%s=%s' % (k, c[k]) for k in keys if k in c)
     return s.replace(' ', '')[:230]
 
@@ -785,7 +819,7 @@ def replay_record(ctx, r):
         n = r['n']
         kw = {}
         sc = [Fraction(*q) for q in r['scale']]
-        if r['mode'] == 'invvar':
+        if r['mode'] in ('invvar', 'weight'):
             kw['invvar'] = np.array([float(s * s) for s in sc], dtype='d')
         else:
             kw['sigma'] = np.array([float(s) for s in sc], dtype='d')
